@@ -1,6 +1,7 @@
 package verifsim
 
 import (
+	"encoding/json"
 	"fmt"
 	"strings"
 	"time"
@@ -288,7 +289,23 @@ func (o *orC19) onIterLeave(it *iterRec) {
 			m.violate("C19", "untracked_relaxed", "replica-left-relaxed-outside-registry", fmt.Sprintf("after the sync of %s replica %s runs with innodb_flush_log_at_trx_commit=%d sync_binlog=%d (cluster level %v) but is not in the optimisation registry", it.inc, h, sv.FlushLog, sv.SyncBinlog, o.baseline))
 		}
 	}
-	if len(relaxedReg) > 1 {
+	// the registry cannot be read while one of its entries is garbage (left by an external tool):
+	// every sync then fails before it decides anything, so what it found is not of its making
+	unreadable := false
+	for _, h := range s.zk.children("/test/optimization_nodes") {
+		raw, _ := s.zk.get("/test/optimization_nodes/" + h)
+		var js map[string]any
+		if json.Unmarshal([]byte(raw), &js) != nil {
+			unreadable = true
+		}
+	}
+	byMysync := false
+	for _, h := range relaxedReg {
+		if o.wroteBy[h] {
+			byMysync = true
+		}
+	}
+	if len(relaxedReg) > 1 && (!unreadable || byMysync) {
 		m.violate("C19", "more_than_one", "more-than-one-replica-left-relaxed-after-sync", fmt.Sprintf("after the sync of %s replicas %v all run with relaxed durability settings", it.inc, relaxedReg))
 	}
 	if msv := s.mysql.servers[master]; msv != nil && msv.Up && o.wroteBy[master] && o.relaxed(msv) {
@@ -298,6 +315,9 @@ func (o *orC19) onIterLeave(it *iterRec) {
 	}
 	// (2) hosts without a known lag / with converged lag are restored and dropped
 	settle := 2*ms(cfg.HealthMs) + ms(cfg.TickMs) + time.Second
+	if unreadable {
+		return
+	}
 	for _, sv := range s.mysql.sorted() {
 		h := sv.Name
 		if h == master || !(m.isHA(h) || m.isCascade(h)) || !sv.Up || sv.lastWorldChange >= it.startT-settle {
